@@ -357,6 +357,9 @@ def r3(ctx):
                         continue
                     if isinstance(sub, (ast.Assign, ast.AugAssign)):
                         tg = sub.targets[0] if isinstance(sub, ast.Assign) else sub.target
+                        cv = ana.res.callee(fi, sub.value) if isinstance(sub.value, ast.Call) else None
+                        if isinstance(tg, ast.Name) and cv is not None and str(cv.target) in POOL_CTORS:
+                            continue      # the branch builds the pool itself (factory expanded into its caller)
                         if not (isinstance(tg, ast.Name) and _only_feeds_pool_size(ana, fi, tg.id)):
                             ok = False
                             detail = f"branch on the switch assigns `{unparse(tg)}` (line {sub.lineno}), which is not just the pool size"
@@ -373,7 +376,9 @@ def r3(ctx):
                         ok = False
                         detail = f"branch on the switch calls {unparse(sub.value.func)} (line {sub.lineno})"
             # every return of the function is a pool constructor call (the switch can only change its size)
-            for r_ in [x for x in Resolver.walk_own(fi.node) if isinstance(x, ast.Return)]:
+            rets = [x for x in Resolver.walk_own(fi.node) if isinstance(x, ast.Return)]
+            is_factory = any(isinstance(x.value, ast.Call) and str(ana.res.callee(fi, x.value).target) in POOL_CTORS for x in rets)
+            for r_ in (rets if is_factory else []):
                 c = ana.res.callee(fi, r_.value) if isinstance(r_.value, ast.Call) else None
                 if not (c is not None and str(c.target) in POOL_CTORS):
                     ok = False
